@@ -80,6 +80,10 @@ def cases_for(tier, rng):
             extra.append(dict(c, history="abandon"))
         if k % (97 if tier == "quick" else 41) == 1 and len(c["mib"]) >= 2:
             extra.append(dict(c, history="retry"))
+        if k % 13 == 5 and len(c["mib"]) >= 3:
+            # other calls on the same session in the middle of the walk: a get(), a whole nested walk
+            extra.append(dict(c, history="mix", mix_after=rng.choice([1, 1, 2, 3]),
+                              mix=rng.choice([["get"], ["walk"], ["get", "walk"], ["walk", "get"]])))
         if k % 11 == 2 and len(c["mib"]) >= 3:
             # one walk object consumed in several loops (next() to peek, for ... break, for again)
             extra.append(dict(c, history="parts", parts=[rng.choice([1, 2, 3]), rng.choice([0, 1, 2, 4, 7])]))
@@ -148,6 +152,12 @@ def worker(job):
         if hist == "parts":
             drv.part_sizes = c["parts"]
             call_op = op + "_parts"
+        if hist == "mix":
+            some = B.oid_text(mib.keys[0]) if mib.keys else "1.3.6.1.2.1.1.1.0"
+            inner = rng.choice(["getnext", "getbulk" if cfg.version != "v1" else "getnext", "fetch"])
+            drv.mix_after = c["mix_after"]
+            drv.mix_ops = [("get", some) if m == "get" else (inner, B.oid_text(base)) for m in c["mix"]]
+            call_op = op + "_mix"
         out = drv.call(call_op, *args, limit=400)
         res["walks"] += 1
         res["requests"] += st["n"]
@@ -159,16 +169,51 @@ def worker(job):
             res["inconclusive"].append("agent could not parse: %s" % st.pop("agent_err"))
             continue
         if out[0] == "exc" and out[1]["cls"] == "TimeoutError":
-            res["inconclusive"].append("timeout (load)%s" % (" in a retry history" if hist == "retry" else ""))
+            # load - or a walk that cannot complete?  The agent answers every datagram it gets here (except the one a
+            # retry history drops on purpose), so: two more attempts on fresh sessions with a 1.5 s timeout; three timeouts
+            # in a row with every received datagram answered are a verdict, anything less is inconclusive.
             for d in drvs.values():
                 d.close()
             drvs.clear()
+            again = 0
+            if hist != "retry":
+                for _ in range(2):
+                    d2 = driver.Driver(cfg, agent, timeout=1.5, allow_bulk=allow_bulk, max_repetitions=c["mr"]).create()
+                    st.update(mib=mibagent.Mib([]), cap=None, n=0, drop_at=None)
+                    d2.call("open")
+                    st.update(mib=mib, cap=c["cap"], n=0, drop_at=None, dropped=False)
+                    for attr in ("part_sizes", "mix_after", "mix_ops"):
+                        if hasattr(drv, attr):
+                            setattr(d2, attr, getattr(drv, attr))
+                    n_rx0 = len([1 for k_, t_, _ in agent.log if k_ == "rx"])
+                    n_tx0 = len([1 for k_, t_, _ in agent.log if k_ == "tx"])
+                    o2 = d2.call(call_op, *args, limit=400)
+                    d2.close()
+                    agent.wait_idle(timeout=3)
+                    n_rx = len([1 for k_, t_, _ in agent.log if k_ == "rx"]) - n_rx0
+                    n_tx = len([1 for k_, t_, _ in agent.log if k_ == "tx"]) - n_tx0
+                    if o2[0] == "exc" and o2[1]["cls"] == "TimeoutError" and n_rx == n_tx and n_rx > 0:
+                        again += 1
+                    else:
+                        break
+            if again == 2 and len(res["bad"]) < 60:
+                res["bad"].append({"cfgkey": cfg.key(), "op": op, "base": B.oid_text(base), "mr": c["mr"], "cap": c["cap"], "mib": [B.oid_text(o) for o in c["mib"]][:40],
+                                   "want": [w[0] for w in want][:40], "got": "TimeoutError on 3 sessions out of 3 (1.5 s) although the agent answered every datagram it received; history %s %s"
+                                   % (hist, c.get("mix") or c.get("parts") or ""), "sig": "never-completes"})
+            else:
+                res["inconclusive"].append("timeout (load)%s" % (" in a retry history" if hist == "retry" else ""))
             continue
         if len(res.setdefault("samples", [])) < 2 and ci % 40 == 3:
             res["samples"].append({"cfg": cfg.key(), "op": op, "base": B.oid_text(base), "max_repetitions": c["mr"], "agent_cap": c["cap"],
                                    "mib": [B.oid_text(o) for o in c["mib"]][:12], "requests": st["n"],
                                    "returned": [g[0] if isinstance(g, tuple) else g for g in (out[1] if out[0] == "ok" else [repr(out)[:80]])][:12]})
         good = out[0] == "ok" and len(out[1]) == len(want) and all(g[0] == w[0] and M.same_value(w[1], g[1]) for g, w in zip(out[1], want))
+        if hist == "mix" and good and len(want) >= c["mix_after"]:
+            # the inner calls: the nested walk of the same base returns the same subtree
+            for (kind, a), r in zip(drv.mix_ops, getattr(drv, "mix_log", [])):
+                if kind != "get" and not (r[0] == "ok" and len(r[1]) == len(want) and all(g[0] == w[0] and M.same_value(w[1], g[1]) for g, w in zip(r[1], want))):
+                    good = False
+                    out = ("ok", ["(nested %s returned %s)" % (kind, repr(r)[:200])])
         if not good and len(res["bad"]) < 60:
             got = out[1] if out[0] == "ok" else out
             res["bad"].append({"cfgkey": cfg.key(), "op": op, "base": B.oid_text(base), "mr": c["mr"], "cap": c["cap"],
